@@ -12,7 +12,7 @@
    regions (_if/_while), which have no try/finally -- recorded as a known finding when observed. *)
 From Coq Require Import ZArith List Bool.
 From PySnark.Model Require Import Lc Sym Gadgets Api Prog.
-From PySnark.Proofs Require Import Meta Frame ProgFrame.
+From PySnark.Proofs Require Import Meta Frame ProgFrame Wp WpBase GadgetsOK Values.
 Import ListNotations.
 Open Scope Z_scope.
 
@@ -35,6 +35,24 @@ Theorem C08_program_return : forall (p : Z) (c : cfg) (pr : list stmt) r s cs,
   cur_triple s = cur_triple (init_gst (p:=p)) /\ unw s = None.
 Proof. intros p c pr r s cs H R. destruct (program_globals_restored c pr r s cs H R) as (T & U & _). split; assumption. Qed.
 
+(* nesting = conjunction: entering a region with condition cnd under an active guard g0 (whose value is boolean) makes the
+   effective guard g0 * cnd -- for every generator state satisfying the invariant, all values (when error checking is on the
+   condition must be boolean, otherwise add_guard raises; when it is suppressed the enclosing guard is 0 and so is the result) *)
+Theorem C08_nested_guard_is_the_conjunction : forall (p : Z) ins ig (c : cfg) (s : @Gadgets.gst p) sg (cnd g0 : Sym.slc p),
+  WpBase.Inv ins ig s sg -> guard s = Some g0 -> (0 < nbits c)%nat ->
+  (Sym.veval p ins ig sg (sval g0) = 0 \/ Sym.veval p ins ig sg (sval g0) = 1) ->
+  Values.returns ins ig (new_guard c cnd) s sg
+    (fun gi sg' => Sym.veval p ins ig sg' (sval (fst gi)) = Sym.veval p ins ig sg (sval g0) * Sym.veval p ins ig sg (sval cnd)).
+Proof.
+  intros p ins ig c s sg cnd g0 I G Hn Hb. unfold Values.returns. apply (new_guard_conj_wp ins ig c cnd g0 s sg _ I G Hn Hb).
+  intros gi s' sg' _ V _. exact V.
+Qed.
+(* and inside any region: error suppression on implies that the effective guard evaluates to 0 (the invariant every gadget
+   proof relies on; it is established by new_guard and preserved by every computation: GadgetsOK.guarded_OK) *)
+Theorem C08_suppression_only_under_a_false_guard : forall (p : Z) ins ig (s : @Gadgets.gst p) sg g,
+  WpBase.Inv ins ig s sg -> guard s = Some g -> Sym.beval p ins ig sg (ignore s) = true -> Sym.veval p ins ig sg (sval g) = 0.
+Proof. intros p ins ig s sg g (_ & _ & H) G B. rewrite G in H. exact (proj1 H B). Qed.
+
 (* non-vacuity: three nested regions, the innermost aborted by a failing assertion *)
 Example C08_example :
   let pr := [SInput 0 IPriv 0; SInput 1 IPriv 1; SBin 2 OLt 0 1;
@@ -46,3 +64,4 @@ Proof. vm_compute. split; reflexivity. Qed.
 Print Assumptions C08_restored_on_return.
 Print Assumptions C08_restored_on_exception.
 Print Assumptions C08_program_exception.
+Print Assumptions C08_nested_guard_is_the_conjunction.
